@@ -190,6 +190,9 @@ func swFamily(env *Env) error {
 		switch rng.Intn(4) {
 		case 0:
 			c.Sch.Mode, alpha = "dna", []byte("ACGTACGTACGTRYNacgtU")
+			if rng.Intn(3) == 0 {
+				alpha = []byte("ACGTACGTSWRYKMBVHDNUX") // every symbol of the table's header
+			}
 		case 1:
 			c.Sch.Mode, alpha = "prot", []byte("ARNDCQEGHILKMFPSTWYVBZX*ILQEFP")
 		default:
